@@ -356,6 +356,14 @@ func exhaustiveC04(thorough bool, emit func(C04Case) bool) {
 			return
 		}
 	}
+	// a delimiter next to every other byte, inside and across machine words of Chrom and Name
+	if !bytePairFields("#\",;:", "\t\r\n", func(v gen.B) bool {
+		r := baseBedRec(6)
+		r.Chrom, r.Name = v, v
+		return emit(C04Case{Recs: []BedRec{r, baseBedRec(6)}})
+	}) {
+		return
+	}
 	// twin records: Chrom / Name of equal length that differ in one byte, in one stream
 	if !twinFields(func(a, b gen.B) bool {
 		mk := func(c, n gen.B) BedRec {
